@@ -1557,6 +1557,7 @@ pub fn run(args: &Args) -> Shard {
             "stress" => crate::conc2::run_stress(focus, seed, index, args),
             "bare" => crate::conc2::run_bare(focus, seed, index, args),
             "estimate" => crate::conc2::run_estimate(focus, seed, index),
+            "release" => crate::conc2::run_release(focus, seed, index),
             other => { eprintln!("unknown scenario {}", other); std::process::exit(2); }
         };
         shard.case(out.signature, out.nontrivial);
